@@ -985,7 +985,12 @@ func (s *Session) input(seg *segment) error {
 				panic(fmt.Sprintf("%v cipher block user name is not set", seg))
 			}
 			if prevUserName != nextUserName {
-				panic(fmt.Sprintf("%v cipher block user name %q is different from %v cipher block user name %q", s, prevUserName, seg, nextUserName))
+				// The segment was authenticated by a different user who put
+				// this session's ID in it. This is reachable from the network
+				// on the packet transport, so drop the segment instead of
+				// crashing the process or disturbing the session's owner.
+				log.Debugf("%v dropped %v: it is authenticated by user %q, session is owned by user %q", s, seg, nextUserName, prevUserName)
+				return nil
 			}
 		}
 
